@@ -141,6 +141,34 @@ def main(chk):
             if k % 997 == 0:
                 chk.sample({'nodes': rec['nodes'], 'stateful_groups': rec['sf'], 'persistent': rec['pers'], 'values': obs['values'][-1]})
     chk.validated(done)
+    # ---- 2b. a task that fails: the direct evaluation of the graph fails, so does the table - no task is attempted a second
+    # time, nothing is committed
+    faults = 0
+    candidates = [r for r in exports if any(not n['trained'] and n['szin'] > 0 and not r['sf'][n['grp'] - 1] for n in r['nodes'])]
+    for k, rec in enumerate(candidates[::max(1, len(candidates) // (300 if chk.quick else 3000))]):
+        groups = sorted({n['grp'] for n in rec['nodes'] if not n['trained'] and n['szin'] > 0 and not rec['sf'][n['grp'] - 1]})
+        group = groups[k % len(groups)]
+        marker = os.path.join(tmp, f'fault-{k}')
+        try:
+            raised, again, commits = graphs.run_with_fault(rec['nodes'], rec['sf'], rec['pers'], group, marker, rnd)
+            problem = None
+            if raised is None:
+                problem = 'the table ran to completion although one of its tasks failed'
+            elif again != 0:
+                problem = f'the failed task was attempted again ({again} further application(s))'
+            elif commits:
+                problem = 'states were committed by a run that failed'
+        except Exception as exc:  # pylint: disable=broad-except
+            problem = f'compilation failed: {type(exc).__name__}: {exc}'
+        if os.path.exists(marker):
+            os.remove(marker)
+        if problem:
+            chk.fail(f'C01 segment {rec["nodes"]} persistent={rec["pers"]} with actor {group} failing once: {problem} (every task runs '
+                     'exactly once; the direct evaluation of the graph fails)', {'nodes': rec['nodes'], 'sf': rec['sf'], 'pers': rec['pers'], 'fault': group})
+        else:
+            faults += 1
+    chk.validated(faults)
+    chk.extra['fault_runs'] = faults
     # binding self-test: swapping two arguments of one symbol must be noticed
     rec = next(r for r in exports if any(len(n['ins']) == 2 and n['ins'][0] != n['ins'][1] and not n['trained'] for n in r['nodes']))
 
